@@ -18,6 +18,22 @@ from . import mir
 from .common import with_closures
 
 
+_WANTS = []
+
+
+def _same_value(g, du, a, b):
+    """do two operands denote the same value: plain copies of one local, or the same origin(s) through `?`, moves, casts-free
+    copies and the Ok(..)/Some(..) wrappers of an inlined helper's return"""
+    ra, rb = _root(g, du, a), _root(g, du, b)
+    if ra is not None and ra == rb:
+        return True
+    oa = {repr(o) for o in mir.provenance(g, du, a) if o.kind in ("call", "local", "arg")}
+    ob = {repr(o) for o in mir.provenance(g, du, b) if o.kind in ("call", "local", "arg")}
+    # flow-insensitive provenance through an inlined helper also collects the helper's other return values (error
+    # aggregates, residuals): the compared value's origins must all be origins of the argument (or the other way round)
+    return bool(oa) and bool(ob) and (oa <= ob or ob <= oa)
+
+
 def _owner(F, p):
     f = F.fns.get(p) or F.built.get(p)
     while f is not None and f.get("owner"):
@@ -32,7 +48,15 @@ def _calls_of(F, caller, callee):
     if c is None:
         return None
     out = []
-    for g in with_closures(F, c):
+
+    def want(t, cal):
+        # helpers of the caller's crate a refactoring may have moved the guard into; never the guarded callee itself
+        if cal["crate"] != c["crate"] or cal.get("impl_trait") or cal.get("trait_default") or cal["path"] == callee:
+            return False
+        return len(cal["blocks"]) <= 150
+    _WANTS.append(want)   # keep alive: the inline cache is keyed by id(want)
+    for g0 in with_closures(F, c):
+        g = mir.inline_calls(F, g0, want=want, depth=2)
         for bi, t in mir.calls(g):
             if (t.get("resolved") or t.get("callee")) == callee or t.get("callee") == callee:
                 out.append((g, bi, t))
@@ -143,7 +167,7 @@ def check(F, prem):
                             if d[0] != "call" and d[3]["rv"]["k"] == "cast" and d[3]["rv"].get("to") == prem["lhs_cast_to"]:
                                 lhs_ok = True
                 if lhs_ok and prem.get("lhs_is_arg") is not None:
-                    lhs_ok = _root(g, du, cmpdef["a"]) == _root(g, du, tm["args"][prem["lhs_is_arg"]])
+                    lhs_ok = _same_value(g, du, cmpdef["a"], tm["args"][prem["lhs_is_arg"]])
                 if not lhs_ok:
                     continue
                 false_t = dict((v, tb) for v, tb in tt["targets"]).get(0)
